@@ -61,6 +61,7 @@ type synRunner struct {
 	nextID   int
 	terms    []string
 	defs     strings.Builder
+	skipHist bool // leave out the multi-run histories (every second random layout in the quick tier)
 	nDefs    int
 	nCases   int
 	distinct map[[32]byte]bool
@@ -587,7 +588,7 @@ func (s *synRunner) runLayouts(ls []layout, rng *rand.Rand, nDamage int, only *s
 		}
 	}
 	sort.Strings(keys)
-	if only == nil || strings.HasPrefix(only.Mode, "history") || strings.Contains(only.Mode, "write-over-damaged") {
+	if (only == nil && !s.skipHist) || (only != nil && (strings.HasPrefix(only.Mode, "history") || strings.Contains(only.Mode, "write-over-damaged"))) {
 		s.histories(ls, fsys, mpds, scan, files1, keys, dir, rng, base, only)
 	}
 	if len(keys) == 0 {
@@ -805,7 +806,7 @@ func runC15(c *lib.Ctx) error {
 
 	// Part S: structured layouts one by one, then random ones, then groups (several assets in one tree)
 	structured := structuredLayouts()
-	nDamage, nRandom, nGroups := 4, 80, 8
+	nDamage, nRandom, nGroups := 4, 60, 6
 	if c.Thorough() {
 		nDamage, nRandom, nGroups = 9, 2000, 150
 	}
@@ -815,7 +816,9 @@ func runC15(c *lib.Ctx) error {
 	}
 	for k := 0; k < nRandom; k++ {
 		c.Count("layout:random")
+		s.skipHist = !c.Thorough() && k%2 == 1
 		s.runLayouts([]layout{randomLayout(rng, k)}, rng, nDamage, nil)
+		s.skipHist = false
 	}
 	for g := 0; g < nGroups; g++ {
 		var ls []layout
